@@ -152,23 +152,37 @@ func drain(s *packet.Session) (out []packet.Notification) {
 	}
 }
 
-// normalise rewrites every wall-clock stamp the library just wrote to the virtual now
-func normalise(s *packet.Session, v time.Time) {
-	for _, h := range s.HostTable.Table {
-		if h != nil && isReal(h.LastSeen) {
-			h.LastSeen = v
+// normalise rewrites every wall-clock stamp the library just wrote to the virtual now.  Only stamps taken inside
+// the call window [t0, t1] are rewritten: a wall-clock stamp outside it means the library applied an offset to
+// time.Now() (or kept a stale one), which is reported.
+func normalise(s *packet.Session, v, t0, t1 time.Time) (bad string) {
+	fix := func(what string, t *time.Time) {
+		if !isReal(*t) {
+			return
+		}
+		if t.Before(t0) || t.After(t1) {
+			if bad == "" {
+				bad = fmt.Sprintf("%s: LastSeen is %v away from the call that wrote it (not time.Now() of the call)", what, t.Sub(t0).Round(time.Millisecond))
+			}
+		}
+		*t = v
+	}
+	for ip, h := range s.HostTable.Table {
+		if h != nil {
+			fix("host "+ip.String(), &h.LastSeen)
 		}
 	}
 	for _, e := range s.MACTable.Table {
-		if e != nil && isReal(e.LastSeen) {
-			e.LastSeen = v
+		if e != nil {
+			fix("mac entry "+e.MAC.String(), &e.LastSeen)
 		}
 	}
+	return bad
 }
 
 // afterNewSession puts the state NewSession built on the virtual clock
-func afterNewSession(s *packet.Session, v time.Time) {
-	normalise(s, v)
+func afterNewSession(s *packet.Session, v, t0 time.Time) {
+	normalise(s, v, t0, time.Now())
 	if h := s.HostTable.Table[s.NICInfo.HostAddr4.IP]; h != nil {
 		h.LastSeen = v.Add(year)
 		if h.MACEntry != nil {
@@ -178,8 +192,9 @@ func afterNewSession(s *packet.Session, v time.Time) {
 }
 
 func freshSession() (*packet.Session, *sess.RecConn) {
+	t0 := time.Now()
 	s, conn := sess.New(nil)
-	afterNewSession(s, startV())
+	afterNewSession(s, startV(), t0)
 	return s, conn
 }
 
@@ -318,6 +333,7 @@ func (r *runner) lib(kind string, call func(o *outT)) []packet.Notification {
 	}
 	pre, preOK := r.cur, r.curOK
 	o := outT{hostKey: "-", err: "-"}
+	t0 := time.Now()
 	func() {
 		defer func() {
 			if x := recover(); x != nil {
@@ -327,7 +343,9 @@ func (r *runner) lib(kind string, call func(o *outT)) []packet.Notification {
 		call(&o)
 	}()
 	op := o.op
-	normalise(r.s, r.V)
+	if bad := normalise(r.s, r.V, t0, time.Now()); bad != "" {
+		r.report(pC04, kind+": "+bad)
+	}
 	notifs := drain(r.s)
 	r.steps++
 	if o.panicv != nil {
@@ -524,11 +542,15 @@ func (r *runner) exec(h hop) {
 	}
 	var nf []packet.Notification
 	single := false
+	var announced []netip.Addr // hosts this step notifies about: a pending name change must go out with it
 	switch h.k {
 	case 'F':
 		nf = r.parseStep(h.fr)
 		if h.nk != "" && !r.dead && r.fr.Host != nil {
 			r.nameStep(r.fr.Host, h.nk, h.name)
+		}
+		if !r.dead && r.fr.Host != nil && !r.frameStale() {
+			announced = append(announced, r.fr.Host.Addr.IP)
 		}
 		nf = append(nf, r.notifyStep()...)
 		single = true
@@ -541,10 +563,12 @@ func (r *runner) exec(h hop) {
 	case 'D':
 		nf = r.parseStep(h.fr)
 		nf = append(nf, r.dhcpStep(h.mac, h.ip, h.name)...)
+		announced = append(announced, h.ip)
 		nf = append(nf, r.notifyStep()...)
 		single = true
 	case 'U':
 		nf = r.dhcpStep(h.mac, h.ip, h.name)
+		announced = append(announced, h.ip)
 		single = true
 	case 'O':
 		e := h.name.entry("dhcp4", r.V)
@@ -601,7 +625,18 @@ func (r *runner) exec(h hop) {
 		r.c06.apply(nf)
 		return
 	}
-	r.report(pC06, r.c06.endOfStep(r.s, r.ref, nf, single))
+	what := r.c06.endOfStep(r.s, r.ref, nf, single)
+	if what == "" && r.c06.active {
+		// "one further notification when a learned name changes": the step notified about these hosts
+		// (Notify for the frame's host, DHCPv4Update's own announcement), so no name change may stay pending
+		for _, ip := range announced {
+			if r.c06.pending[ip] && r.s.FindIP(ip) != nil {
+				what = fmt.Sprintf("lost notification: the name learned for %s changed and the step notified about that host, but no notification carried the change", ip)
+				break
+			}
+		}
+	}
+	r.report(pC06, what)
 }
 
 // finish: PrintTable must not panic on the final state
